@@ -51,9 +51,3 @@ Definition pinned_decls_lru : list string :=
 
 Definition ok_lru : Prop :=
   of_file fst "lru.go" InvCache.inventory = pinned_lru /\ of_file (fun s => s) "lru.go" InvCache.decls = pinned_decls_lru.
-
-Lemma C08_inventory_cache : InvCache.files = pinned_files /\ ok_cache /\ ok_lru.
-Proof. unfold ok_cache, ok_lru; repeat split; vm_compute; reflexivity. Qed.
-
-Lemma C09_inventory_cache : InvCache.files = pinned_files /\ ok_cache /\ ok_lru.
-Proof. unfold ok_cache, ok_lru; repeat split; vm_compute; reflexivity. Qed.
